@@ -1948,4 +1948,330 @@ theorem trimmed_trimD (s : Str) : trimmed (trimD s) = true := by
   unfold trimmed trimD
   rw [trimChars_idem]; simp
 
+
+/-! ### what the conventions produce is `Decoded` -/
+
+theorem mem_insert {e : Str × Val} {k : Str} {v : Val} : ∀ {l : Entries},
+    e ∈ insert k v l → e = (k, v) ∨ e ∈ l
+  | [], h => by simp [insert] at h; exact .inl h
+  | (k', v') :: rest, h => by
+      simp only [insert] at h
+      split at h
+      · rcases List.mem_cons.1 h with h | h
+        · exact .inl h
+        · exact .inr (List.mem_cons_of_mem _ h)
+      · rcases List.mem_cons.1 h with h | h
+        · exact .inr (by rw [h]; exact List.mem_cons_self ..)
+        · rcases mem_insert h with h | h
+          · exact .inl h
+          · exact .inr (List.mem_cons_of_mem _ h)
+
+theorem mem_foldl_insert : ∀ (attrs : List Attr) (acc : Entries) (e : Str × Val),
+    e ∈ attrs.foldl (fun na a => insert ('-' :: a.name) (.str a.value) na) acc →
+    e ∈ acc ∨ ∃ a ∈ attrs, e = ('-' :: a.name, Val.str a.value)
+  | [], _, _, h => .inl h
+  | a :: as, acc, e, h => by
+      rw [List.foldl_cons] at h
+      rcases mem_foldl_insert as _ e h with h | ⟨b, hb, he⟩
+      · rcases mem_insert h with h | h
+        · exact .inr ⟨a, List.mem_cons_self .., h⟩
+        · exact .inl h
+      · exact .inr ⟨b, List.mem_cons_of_mem _ hb, he⟩
+
+theorem nodup_foldl_insert : ∀ (attrs : List Attr) (acc : Entries), (keys acc).Nodup →
+    (keys (attrs.foldl (fun na a => insert ('-' :: a.name) (.str a.value) na) acc)).Nodup
+  | [], _, h => h
+  | a :: as, acc, h => by
+      rw [List.foldl_cons]
+      exact nodup_foldl_insert as _ (nodup_keys_insert _ _ _ h)
+
+theorem nodup_keys_loadAttrs (S : Strconv) (attrs : List Attr) :
+    (keys (loadAttrs dc S attrs)).Nodup := by
+  rw [loadAttrs_eq]; exact nodup_foldl_insert attrs [] (by simp [keys])
+
+theorem mem_loadAttrs (S : Strconv) (attrs : List Attr) (e : Str × Val)
+    (h : e ∈ loadAttrs dc S attrs) : ∃ a ∈ attrs, e = ('-' :: a.name, Val.str a.value) := by
+  rw [loadAttrs_eq] at h
+  rcases mem_foldl_insert attrs [] e h with h | h
+  · simp at h
+  · exact h
+
+theorem textRuns_trimmed : ∀ (ks : List Node) (seen : Bool), ∀ t ∈ Conv.textRuns dc seen ks,
+    trimmed t.value = true ∧ t.value.isEmpty = false
+  | [], _, _, h => by simp [Conv.textRuns] at h
+  | n :: ks, seen, t, h => by
+      cases n with
+      | text s =>
+        simp only [Conv.textRuns, textOf_dc] at h
+        by_cases hte : (trimD s).isEmpty = true
+        · simp only [hte, if_true] at h
+          exact textRuns_trimmed ks seen t h
+        · simp only [hte, Bool.false_eq_true, if_false] at h
+          rcases List.mem_cons.1 h with rfl | h
+          · exact ⟨trimmed_trimD s, by simpa using hte⟩
+          · exact textRuns_trimmed ks seen t h
+      | elem _ _ _ _ =>
+        simp only [Conv.textRuns] at h
+        exact textRuns_trimmed ks true t h
+      | comment _ | procinst _ _ | directive _ =>
+        simp only [Conv.textRuns] at h
+        exact textRuns_trimmed ks seen t h
+
+theorem textRuns_late (S : Strconv) : ∀ (ks : List Node) (seen : Bool) (seq : Nat),
+    ∀ t ∈ Conv.textRuns dc seen ks, t.early = false →
+    seen = true ∨ Conv.childVals dc S seq ks ≠ []
+  | [], _, _, _, h, _ => by simp [Conv.textRuns] at h
+  | n :: ks, seen, seq, t, h, he => by
+      cases n with
+      | text s =>
+        simp only [Conv.textRuns, textOf_dc] at h
+        rw [childVals_text]
+        by_cases hte : (trimD s).isEmpty = true
+        · simp only [hte, if_true] at h
+          exact textRuns_late S ks seen seq t h he
+        · simp only [hte, Bool.false_eq_true, if_false] at h
+          rcases List.mem_cons.1 h with rfl | h
+          · left; simpa using he
+          · exact textRuns_late S ks seen seq t h he
+      | elem _ _ _ _ =>
+        right; rw [childVals_elem]; simp
+      | comment _ | procinst _ _ | directive _ =>
+        simp only [Conv.textRuns] at h
+        simp only [Conv.childVals]
+        exact textRuns_late S ks seen seq t h he
+
+theorem collect_isSome (o : Option Val) (vs : List Val) (h : o ≠ none ∨ vs ≠ []) :
+    Conv.collect o vs ≠ none := by
+  intro hc
+  have ho := collect_eq_none hc
+  subst ho
+  rcases h with h | h
+  · exact h rfl
+  · rw [collect_none vs h] at hc; simp at hc
+
+theorem lookup_ne_nil {q : Str} {l : Entries} (h : lookup q l ≠ none) : l.isEmpty = false := by
+  cases l with
+  | nil => simp [lookup] at h
+  | cons _ _ => rfl
+
+theorem valsOf_ne_nil {q : Str} {cs : List (Str × Val)} (h : q ∈ keys cs) : valsOf q cs ≠ [] := by
+  obtain ⟨c, hc, rfl⟩ := mem_keys.1 h
+  unfold valsOf
+  intro he
+  have : c.2 ∈ List.map (fun x => x.2) (cs.filter (fun x => decide (x.1 = c.1))) :=
+    List.mem_map.2 ⟨c, List.mem_filter.2 ⟨hc, by simp⟩, rfl⟩
+  rw [he] at this; simp at this
+
+theorem groupOnto_ne_nil (A : Entries) (cs : List (Str × Val))
+    (h : A.isEmpty = false ∨ cs ≠ []) : (Conv.groupOnto A cs).isEmpty = false := by
+  rcases h with h | h
+  · cases A with
+    | nil => simp at h
+    | cons e rest =>
+      apply lookup_ne_nil (q := e.1)
+      rw [lookup_groupOnto]
+      have hl : lookup e.1 (e :: rest) ≠ none := by
+        rw [Ne, lookup_eq_none_iff]; simp [keys]
+      split
+      · exact collect_isSome _ _ (.inl hl)
+      · exact hl
+  · cases cs with
+    | nil => exact absurd rfl h
+    | cons c rest =>
+      have hq : c.1 ∈ keys (c :: rest) := by simp [keys]
+      apply lookup_ne_nil (q := c.1)
+      rw [lookup_groupOnto, if_pos hq]
+      exact collect_isSome _ _ (.inr (valsOf_ne_nil hq))
+
+theorem DecodedList_of_all : ∀ (vs : List Val), (∀ x ∈ vs, Decoded x = true) → DecodedList vs = true
+  | [], _ => rfl
+  | x :: xs, h => by
+      have hx := h x (List.mem_cons_self ..)
+      unfold Decoded at hx
+      simp only [DecodedList, hx, Bool.true_and]
+      exact DecodedList_of_all xs (fun y hy => h y (List.mem_cons_of_mem _ hy))
+
+theorem DecodedChild_collectV (vs : List Val) (hne : vs ≠ []) (h : ∀ x ∈ vs, Decoded x = true) :
+    DecodedChild (collectV vs) = true := by
+  match vs, hne, h with
+  | [x], _, h =>
+    have := h x (List.mem_cons_self ..)
+    unfold Decoded at this
+    simp only [Bool.and_eq_true] at this
+    exact this.2
+  | a :: b :: r, _, h =>
+    simp only [collectV, DecodedChild, List.length_cons, Bool.and_eq_true, decide_eq_true_eq]
+    exact ⟨by omega, DecodedList_of_all _ h⟩
+
+theorem mem_valsOf {q : Str} {cs : List (Str × Val)} {x : Val} (h : x ∈ valsOf q cs) :
+    (q, x) ∈ cs := by
+  unfold valsOf at h
+  obtain ⟨c, hc, rfl⟩ := List.mem_map.1 h
+  have := List.mem_filter.1 hc
+  have e : c.1 = q := of_decide_eq_true this.2
+  rw [← e]; exact this.1
+
+theorem trimmed_nil : trimmed [] = true := rfl
+
+/-- the element clause of `Conv.value`, given the children's values are `Decoded` under
+    element keys and the attribute names are non-empty -/
+theorem value_decoded_core (S : Strconv) (sp name : Str) (attrs : List Attr) (kids : List Node)
+    (hattr : ∀ a ∈ attrs, a.name.isEmpty = false)
+    (hcs : ∀ c ∈ Conv.childVals dc S 0 kids, Decoded c.2 = true ∧ isElemK c.1 = true) :
+    Decoded (Conv.value dc S (.elem sp name attrs kids)) = true := by
+  -- attribute entries
+  have hA : ∀ e ∈ loadAttrs dc S attrs, isAttrK ec e.1 = true ∧ isStr e.2 = true := by
+    intro e he
+    obtain ⟨a, ha, rfl⟩ := mem_loadAttrs S attrs e he
+    have := hattr a ha
+    refine ⟨(isAttrK_ec_iff _).2 ?_, rfl⟩
+    cases hn : a.name with
+    | nil => rw [hn] at this; simp at this
+    | cons c r => exact ⟨c, r, rfl⟩
+  have hAnd := nodup_keys_loadAttrs S attrs
+  have hBnd := nodup_keys_groupOnto (loadAttrs dc S attrs) (Conv.childVals dc S 0 kids) hAnd
+  -- entries of the grouped base
+  have hB : ∀ e ∈ Conv.groupOnto (loadAttrs dc S attrs) (Conv.childVals dc S 0 kids),
+      entryDecoded e = true ∧ e.1 ≠ ec.textK := by
+    rintro ⟨k, v⟩ he
+    have hl := (mem_iff_lookup _ hBnd k v).1 he
+    rw [lookup_groupOnto] at hl
+    split at hl
+    · rename_i hk
+      obtain ⟨c, hc, rfl⟩ := mem_keys.1 hk
+      have hek := (hcs c hc).2
+      have hnone : lookup c.1 (loadAttrs dc S attrs) = none := by
+        cases hla : lookup c.1 (loadAttrs dc S attrs) with
+        | none => rfl
+        | some w =>
+          have := (hA _ ((mem_iff_lookup _ hAnd c.1 w).2 hla)).1
+          simp [isElemK, this] at hek
+      rw [hnone, collect_none _ (valsOf_ne_nil hk)] at hl
+      obtain rfl := Option.some.inj hl
+      have hdc : DecodedChild (collectV (valsOf c.1 (Conv.childVals dc S 0 kids))) = true :=
+        DecodedChild_collectV _ (valsOf_ne_nil hk) (fun x hx => (hcs _ (mem_valsOf hx)).1)
+      simp only [isElemK, Bool.not_eq_true', Bool.or_eq_false_iff, decide_eq_false_iff_not] at hek
+      exact ⟨by simp only [entryDecoded, hek.2, hek.1, Bool.false_eq_true, if_false, hdc], hek.1⟩
+    · have hm := (mem_iff_lookup _ hAnd k v).2 hl
+      have := hA _ hm
+      refine ⟨by simp only [entryDecoded, this.1, if_true, this.2], ?_⟩
+      intro e
+      have h1 := this.1
+      have e' : k = ec.textK := e
+      rw [e', textK_not_attr] at h1
+      simp at h1
+  -- a non-empty base is a decoded map
+  have hmap : ∀ (l : Entries), l.isEmpty = false → (keys l).Nodup →
+      (∀ e ∈ l, entryDecoded e = true) → (∃ e ∈ l, e.1 ≠ ec.textK) →
+      Decoded (.map l) = true := by
+    intro l _ hnd hall hex
+    unfold Decoded
+    simp only [Val.isList, Bool.not_false, Bool.true_and, DecodedChild, Bool.and_eq_true]
+    refine ⟨⟨(distinctKeys_iff l).2 hnd, ?_⟩, (DecodedEntries_iff l).2 hall⟩
+    rw [List.any_eq_true]
+    obtain ⟨e, he, hk⟩ := hex
+    exact ⟨e, he, by simpa using hk⟩
+  have hfirst : ∀ (l : Entries), l.isEmpty = false → (∀ e ∈ l, e.1 ≠ ec.textK) →
+      ∃ e ∈ l, e.1 ≠ ec.textK := by
+    intro l hne h
+    cases l with
+    | nil => simp at hne
+    | cons e r => exact ⟨e, List.mem_cons_self .., h e (List.mem_cons_self ..)⟩
+  -- base with a text entry
+  have htext : ∀ (tv : Str), trimmed tv = true → tv.isEmpty = false →
+      (Conv.groupOnto (loadAttrs dc S attrs) (Conv.childVals dc S 0 kids)).isEmpty = false →
+      Decoded (.map (insert dc.textK (.str tv)
+        (Conv.groupOnto (loadAttrs dc S attrs) (Conv.childVals dc S 0 kids)))) = true := by
+    intro tv ht hne hbne
+    have hnot : dc.textK ∉ keys (Conv.groupOnto (loadAttrs dc S attrs) (Conv.childVals dc S 0 kids)) := by
+      intro hm
+      obtain ⟨e, he, hk⟩ := mem_keys.1 hm
+      exact (hB e he).2 hk
+    apply hmap
+    · rw [insert_of_not_mem _ _ _ hnot]; cases Conv.groupOnto (loadAttrs dc S attrs) (Conv.childVals dc S 0 kids) <;> rfl
+    · exact nodup_keys_insert _ _ _ hBnd
+    · intro e he
+      rcases mem_insert he with rfl | he
+      · simp only [entryDecoded, textK_dc, textK_not_attr, Bool.false_eq_true, if_false, if_true,
+          textEntryOk, ht, hne, Bool.not_false, Bool.and_self]
+      · exact (hB e he).1
+    · obtain ⟨e, he, hk⟩ := hfirst _ hbne (fun e he => (hB e he).2)
+      refine ⟨e, ?_, hk⟩
+      rw [insert_of_not_mem _ _ _ hnot]
+      exact List.mem_append_left _ he
+  cases hruns : Conv.textRuns dc (!(loadAttrs dc S attrs).isEmpty || dc.asMap) kids with
+  | nil =>
+    rw [value_elem_nil dc S _ _ _ _ hruns]
+    split
+    · rfl
+    · rename_i hbne
+      have hbne' : (Conv.groupOnto (loadAttrs dc S attrs) (Conv.childVals dc S 0 kids)).isEmpty = false := by
+        simpa using hbne
+      exact hmap _ hbne' hBnd (fun e he => (hB e he).1) (hfirst _ hbne' (fun e he => (hB e he).2))
+  | cons t r =>
+    have htr := textRuns_trimmed kids _ t (by rw [hruns]; exact List.mem_cons_self ..)
+    rw [value_elem_cons dc S _ _ _ _ t r hruns]
+    simp only [cast_dc]
+    split
+    · split
+      · unfold Decoded; simp only [Val.isList, Bool.not_false, Bool.true_and, DecodedChild, htr.1]
+      · rename_i hbne
+        exact htext t.value htr.1 htr.2 (by simpa using hbne)
+    · rename_i hearly
+      have hlate := textRuns_late S kids _ 0 t (by rw [hruns]; exact List.mem_cons_self ..)
+        (by simpa using hearly)
+      apply htext t.value htr.1 htr.2
+      apply groupOnto_ne_nil
+      rcases hlate with h | h
+      · left
+        simpa [dc] using h
+      · exact .inr h
+
+mutual
+theorem value_decoded (S : Strconv) : ∀ (t : Node), Conv.inDomain dc S t = true →
+    NamesOk t = true → isElem t = true → Decoded (Conv.value dc S t) = true
+  | .elem sp name attrs kids, hin, hn, _ => by
+      simp only [Conv.inDomain, Bool.and_eq_true] at hin
+      simp only [NamesOk, Bool.and_eq_true, List.all_eq_true, Bool.not_eq_true'] at hn
+      exact value_decoded_core S sp name attrs kids hn.1
+        (childVals_decoded S kids 0 hin.2 hn.2)
+  | .text _, _, _, h => by simp [isElem] at h
+  | .comment _, _, _, h => by simp [isElem] at h
+  | .procinst _ _, _, _, h => by simp [isElem] at h
+  | .directive _, _, _, h => by simp [isElem] at h
+theorem childVals_decoded (S : Strconv) : ∀ (ks : List Node) (seq : Nat),
+    Conv.inDomainKids dc S ks = true → NamesOkKids ks = true →
+    ∀ c ∈ Conv.childVals dc S seq ks, Decoded c.2 = true ∧ isElemK c.1 = true
+  | [], _, _, _, c, h => by simp [Conv.childVals] at h
+  | .elem sp name attrs kids :: rest, seq, hin, hn, c, h => by
+      simp only [Conv.inDomainKids, Bool.and_eq_true, elemKey_dc] at hin
+      simp only [NamesOkKids, Bool.and_eq_true, Bool.not_eq_true'] at hn
+      rw [childVals_elem] at h
+      rcases List.mem_cons.1 h with rfl | h
+      · refine ⟨value_decoded S (.elem sp name attrs kids) hin.1.2 hn.1.2 rfl, ?_⟩
+        have h1 : ¬ name = ec.textK := of_decide_eq_true hin.1.1.1
+        simp only [isElemK, h1, decide_false, hn.1.1, Bool.or_false, Bool.not_false]
+      · exact childVals_decoded S rest seq hin.2 hn.2 c h
+  | .text _ :: rest, seq, hin, hn, c, h => by
+      simp only [Conv.inDomainKids] at hin
+      simp only [NamesOkKids] at hn
+      simp only [Conv.childVals] at h
+      exact childVals_decoded S rest seq hin hn c h
+  | .comment _ :: rest, seq, hin, hn, c, h => by
+      simp only [Conv.inDomainKids] at hin
+      simp only [NamesOkKids] at hn
+      simp only [Conv.childVals] at h
+      exact childVals_decoded S rest seq hin hn c h
+  | .procinst _ _ :: rest, seq, hin, hn, c, h => by
+      simp only [Conv.inDomainKids] at hin
+      simp only [NamesOkKids] at hn
+      simp only [Conv.childVals] at h
+      exact childVals_decoded S rest seq hin hn c h
+  | .directive _ :: rest, seq, hin, hn, c, h => by
+      simp only [Conv.inDomainKids] at hin
+      simp only [NamesOkKids] at hn
+      simp only [Conv.childVals] at h
+      exact childVals_decoded S rest seq hin hn c h
+end
+
 end Mxj.Enc
